@@ -13,7 +13,7 @@ RULE = ("1-4 arrays over the same set of 0-3 dims built from a base array: varia
 ANCHORS = ["align.stack", "align.concatenate", "align._get_axes", "align._check_stack_args", "align._concatenate_axes"]
 FLOORS = {"quick": {"evaluations": 2000, "distinct": 500, "outcome:refused-as-required": 150, "outcome:joined-checked": 800, "outcome:dimorder-cases": 100},
           "thorough": {"evaluations": 40000, "distinct": 1500}}
-VARIANTS = ['equal', 'equal', 'perm-labels', 'overlap', 'disjoint', 'dimorder', 'size1-differs']
+VARIANTS = ['equal', 'equal', 'perm-labels', 'overlap', 'disjoint', 'dimorder', 'size1-differs', 'nested']
 
 
 def shards(tier, seed, scale=1.0):
@@ -40,8 +40,10 @@ def gen_case(rng):
     op = rng.choice(['stack', 'concat']) if nd else 'stack'
     ck = rng.randrange(nd) if nd else None
     specs = []
+    nested_dim = rng.randrange(nd) if nd else None
     for j in range(narr):
         labs = []
+        kinds_j = list(kinds)
         for q, (lab, k) in enumerate(zip(base["labels"], kinds)):
             lab = list(lab)
             if j > 0:
@@ -49,6 +51,9 @@ def gen_case(rng):
                     # labels along the concatenation axis: fresh ones (sometimes the same again)
                     if rng.random() < 0.7:
                         lab = gen.labels(rng, rng.randint(1, 3), k, rng.choice(['inc', 'dec', 'shuf']))
+                        if k == 'i' and rng.random() < 0.3:
+                            lab = [x + 0.5 for x in lab]        # int labels first, fractional float labels after
+                            kinds_j[q] = 'f'
                 elif variant == 'perm-labels' and len(lab) > 1:
                     lab = lab[::-1]
                 elif variant in ('overlap', 'disjoint'):
@@ -60,8 +65,10 @@ def gen_case(rng):
                     lab = new
                 elif variant == 'size1-differs' and len(lab) == 1:
                     lab = [gen.absent_label(rng, lab, k)]
+                elif variant == 'nested' and len(lab) > 1 and q == nested_dim:
+                    lab = [lab[rng.randrange(len(lab))]] if rng.random() < 0.6 else lab[:-1]      # a subset: other size
             labs.append(lab)
-        sp = {"dims": list(dims), "labels": labs, "kinds": list(kinds), "values": gen.values(rng, tuple(len(l) for l in labs), 'f')}
+        sp = {"dims": list(dims), "labels": labs, "kinds": kinds_j, "values": gen.values(rng, tuple(len(l) for l in labs), 'f')}
         if variant == 'dimorder' and j > 0 and nd > 1:
             p = list(range(nd))
             while p == list(range(nd)):
